@@ -125,6 +125,7 @@ def cases(tier, rng):
     import gaps
     for t in gaps.dm_misaligned_digits(CAPS):
         lines.append("dm " + hx(t.encode()))
+    lines += gaps.family(rng, tier, ("dm",))
     # far more codewords than any symbol holds, incl. counts that wrap around 16 bits onto a valid count
     for n in (1559, 5000, 65535, 65536, 65539, 65536 + 1558, 65536 + 1559, 131072):
         lines.append("dm " + hx(b"a" * n))
